@@ -369,17 +369,45 @@ def run(F, rep):
     if rep.floor("C08-H5", 1 if cl else 0, 1, "clone_for_thread"):
         ex = Exprs(cl)
         calls = [(bi, t) for bi, t in cl.calls() if not t.get("indirect") and t["callee"].startswith("ragc_")]
-        opens = [(bi, t) for bi, t in calls if t["callee"] == DEC + "::open"]
-        ok = len(opens) == 1 and opens[0][1]["dest"]["l"] == 0
+        # (a) nothing of the old handle but its path and configuration flows into the new one
         srcs = []
-        if opens:
-            for a in opens[0][1]["args"]:
+        for bi, t in calls:
+            for a in t["args"]:
                 e = ex.operand(a)
-                fl = [x for x in walk(e) if isinstance(x, tuple) and x[0] == "field" and x[1] == ("param", "self")]
-                srcs += [x[2] for x in fl]
-        ok = ok and set(srcs) <= {"archive_path", "config"}
-        rep.ob("C08-H5", "clone_for_thread returns Decompressor::open(path, config) and nothing else of self", ok,
+                srcs += [x[2] for x in walk(e) if isinstance(x, tuple) and x[0] == "field" and x[1] == ("param", "self")]
+        for blk in cl.blocks:
+            for s in blk["stmts"]:
+                if s["k"] == "assign" and s["rv"]["k"] == "agg" and s["rv"].get("adt") == DEC:
+                    for o in s["rv"]["ops"]:
+                        srcs += [x[2] for x in walk(ex.operand(o)) if isinstance(x, tuple) and x[0] == "field" and x[1] == ("param", "self")]
+        ok = bool(calls) and set(srcs) <= {"archive_path", "config"} and "archive_path" in srcs
+        rep.ob("C08-H5", "clone_for_thread builds the new handle from the path and the configuration only", ok,
                detail="self fields flowing into the new handle: %s" % sorted(set(srcs)), site="%s:%d" % (cl.file, cl.line_lo), key="C08-H5 | clone_for_thread | reopen")
+        # (b) the new handle gets a descriptor of its own: the code it runs opens the file, and reader code never duplicates a descriptor
+        #     (a dup'ed descriptor shares its file offset with the original)
+        reach5 = [k for k in G.reachable([cl.key]) if k in F.funcs]
+        opens = [k for k in reach5 for _, t in F.funcs[k].calls() if not t.get("indirect") and re.search(r"std::fs::File::open$|OpenOptions::open$", t["callee"])]
+        rep.ob("C08-H5", "the code run by clone_for_thread opens the archive file itself", bool(opens), detail="File::open reached in: %s" % sorted(set(opens))[:3],
+               key="C08-H5 | clone_for_thread | opens file")
+    DUP = re.compile(r"fs::File::try_clone$|AsRawFd|FromRawFd|IntoRawFd|AsFd|OwnedFd|BorrowedFd|::dup\d?$")
+    ndup = 0
+    for k, f in F.funcs.items():
+        if not (k.startswith("ragc_common::archive::") or k.startswith("ragc_core::decompressor::")):
+            continue
+        exf = None
+        for bi, t in f.calls():
+            if not t.get("indirect") and DUP.search(t["callee"]):
+                exf = exf or Exprs(f)
+                recv = exf.operand(t["args"][0]) if t["args"] else None
+                fresh = recv is not None and contains(recv, lambda x: isinstance(x, tuple) and x[0] == "call" and re.search(r"std::fs::File::(open|create)$|OpenOptions::open$", x[1])) \
+                    and not contains(recv, lambda x: x == ("param", "self"))
+                if fresh:
+                    continue        # second descriptor for a file this very call has just opened: both belong to the one new handle
+                ndup += 1
+                rep.ob("C08-H5", "reader code does not duplicate a file descriptor (%s in %s)" % (t["callee"].rsplit("::", 1)[-1], k.split("::", 1)[-1]), False,
+                       detail="a duplicated descriptor shares its offset: concurrent handles would seek under each other", site=site_of(f, t),
+                       key="C08-H5 | %s | descriptor duplication" % k)
+    rep.stat("descriptor_duplications_in_reader_code", ndup)
     # no shared-state types inside the handle
     SHARED = re.compile(r"alloc::sync::Arc<|alloc::rc::Rc<|\*mut |\*const |core::cell::|&'static mut|std::sync::(poison::)?(mutex|rwlock)")
     seen = set()
